@@ -377,12 +377,20 @@ type Tree map[string]string
 const SymlinkPrefix = "\x00symlink:"
 
 // Write materialises the tree under root.
-func (t Tree) Write(root string) error {
+func (t Tree) Write(root string) error { return t.WriteOrdered(root, false) }
+
+// WriteOrdered is Write with the entries created in ascending or descending order of their paths (the order in
+// which a directory lists its entries depends on it on some file systems).
+func (t Tree) WriteOrdered(root string, descending bool) error {
 	paths := make([]string, 0, len(t))
 	for p := range t {
 		paths = append(paths, p)
 	}
 	sort.Strings(paths)
+	if descending {
+		// directories first all the same, so that a file never precedes the directory entry it replaces
+		sort.SliceStable(paths, func(i, j int) bool { return paths[i] > paths[j] })
+	}
 	for _, p := range paths {
 		full := filepath.Join(root, p)
 		if strings.HasSuffix(p, "/") {
